@@ -191,7 +191,14 @@ func JsonContainerReader(container map[string]interface{}) node.Node {
 
 func jsonKeyMatches(keyFields []meta.Leafable, candidate map[string]interface{}, key []val.Value) bool {
 	for i, field := range keyFields {
-		if fqkGetOrNil(field, candidate) != key[i].String() {
+		// what the document holds for the key leaf, as a value of the leaf's type (a number is
+		// decoded as json.Number, which never equals the text of the requested key)
+		raw := fqkGetOrNil(field, candidate)
+		if raw == nil || i >= len(key) || key[i] == nil {
+			return false
+		}
+		held, err := node.NewValue(field.Type(), raw)
+		if err != nil || !val.Equal(held, key[i]) {
 			return false
 		}
 	}
